@@ -16,6 +16,10 @@ func runC12(c *core.Ctx) {
 		RunScalarClones(c)
 	case "distribution-parameters":
 		RunDistributionParams(c)
+	case "model-constructors":
+		RunModelConstructors(c)
+	case "read-only-slices":
+		RunSparseConst(c)
 	default:
 		panic("unknown scenario " + c.Scenario)
 	}
@@ -108,6 +112,8 @@ func init() {
 			{Name: "iterator-clones", Weight: 2},
 			{Name: "scalar-clones", Weight: 1},
 			{Name: "distribution-parameters", Weight: 1},
+			{Name: "model-constructors", Weight: 1},
+			{Name: "read-only-slices", Weight: 1},
 		},
 		Run:      runC12,
 		StepUnit: "mutating operations on either side of a copy / library calls with snapshotted operands",
